@@ -170,6 +170,10 @@ class HttpParser:
         nb_parsed = 0
         while True:
             if not self.__on_firstline:
+                if self._buf:
+                    # the line terminator may be split between two segments
+                    data = b''.join(self._buf) + data
+                    self._buf = []
                 idx = data.find(b'\r\n')
                 if idx < 0:
                     self._buf.append(data)
